@@ -191,8 +191,7 @@ def edit_sm(rng, sf, nops):
             if getattr(sf, a) is not None:
                 delattr(sf, a)
         elif r < 0.65 and len(sf.charts) < 6:
-            c = SMChart.blank() if rng.random() < 0.4 else SMChart.from_msd(
-                [cc.rand_value(rng, 6).strip() for _ in range(6)])
+            c = new_sm_chart(rng, 6)
             fix_sm_chart(rng, c)
             sf.charts.insert(rng.randint(0, len(sf.charts)), c)
         elif r < 0.70 and sf.charts:
@@ -201,7 +200,7 @@ def edit_sm(rng, sf, nops):
             i, j = rng.sample(range(len(sf.charts)), 2)
             sf.charts[i], sf.charts[j] = sf.charts[j], sf.charts[i]
         elif r < 0.80 and sf.charts:
-            c = SMChart.from_msd([cc.rand_value(rng, 5).strip() for _ in range(6)])
+            c = new_sm_chart(rng, 5)
             fix_sm_chart(rng, c)
             sf.charts[rng.randrange(len(sf.charts))] = c
         elif r < 0.93 and sf.charts:
@@ -227,6 +226,26 @@ def edit_sm(rng, sf, nops):
             else:
                 c.extradata = [cc.rand_value(rng, 6) for _ in range(rng.randint(0, 3))] or None
             fix_sm_chart(rng, c)
+
+
+def new_sm_chart(rng, n):
+    """a chart from blank(), from six components, or from an EMPTY chart object whose six fields are then
+    assigned one by one in any order (the documented order of the fields in the text is no matter of history)"""
+    from simfile.sm import SMChart
+    r = rng.random()
+    if r < 0.3:
+        return SMChart.blank()
+    vals = [cc.rand_value(rng, n).strip() for _ in range(6)]
+    if r < 0.7:
+        return SMChart.from_msd(vals)
+    c = SMChart()
+    names = ["stepstype", "description", "difficulty", "meter", "radarvalues", "notes"]
+    for i in rng.sample(range(6), 6):
+        if rng.random() < 0.5:
+            setattr(c, names[i], vals[i])
+        else:
+            c[names[i].upper()] = vals[i]
+    return c
 
 
 def fix_sm_chart(rng, c):
